@@ -2,7 +2,10 @@
    ScrewSDF3.Evaluate (periodicity, helix invariance, handedness, taper cone) and the reduction
    of mating to the thread profiles. *)
 From Coq Require Import Reals ZArith Lra Lia List Bool.
-From Sdfx Require Import Num.Ops Num.RInst Geo.Vec Sdf.Screw.
+From Sdfx Require Import Num.Ops.
+From Sdfx Require Import Num.RInst.
+From Sdfx Require Import Geo.Vec.
+From Sdfx Require Import Sdf.Screw.
 Import ListNotations.
 Open Scope R_scope.
 
